@@ -391,9 +391,15 @@ def tracer_cases(ctx, rng):
         return out
 
     def same(a, b):
-        if isinstance(a, float) and isinstance(b, float):
+        """exact equality; NaN equals NaN (an unphysical endpoint gives NaN directions in both objects)"""
+        if isinstance(a, (float, np.floating)) and isinstance(b, (float, np.floating)):
             return a == b or (a != a and b != b)
-        return a == b
+        if isinstance(a, (tuple, list)) and isinstance(b, (tuple, list)):
+            return len(a) == len(b) and all(same(x, y) for x, y in zip(a, b))
+        try:
+            return bool(a == b)
+        except Exception:
+            return False
 
     specs = [
         (SpecializedRayTracer, lambda fp, tp, ice: SpecializedRayTracer(fp, tp, ice_model=ice),
